@@ -1168,6 +1168,16 @@ M('sweep11.http.end_stream_only_frame', ['C12'], 'emitter/otlp/src/client/http.r
   '            (Some(_), _) | (_, Some(_)) => false,',
   '            (Some(_), _) => false,', 'C12.R10:end-of-request-body')
 
+M('sweep11.macros.push_ok_props', ['C02'], 'macros/src/props.rs',
+  '        props.push(&fv, capture::default_fn_name(&fv), false, true)?;',
+  '        props.push(&fv, capture::default_fn_name(&fv), false, true).ok();', 'C02.R4:macro-errors-propagate', count=2)
+M('sweep11.macros.push_ok_template', ['C02'], 'macros/src/template.rs',
+  'props.push(fv, fn_name(fv), true, captured)?;',
+  'props.push(fv, fn_name(fv), true, captured).ok();', 'C02.R4:macro-errors-propagate')
+M('sweep11.macros.check_evt_props_ok', ['C02'], 'macros/src/span.rs',
+  '    check_evt_props(&ctxt_props)?;',
+  '    check_evt_props(&ctxt_props).ok();', 'C02.R4:macro-errors-propagate', count=2)
+
 # ---- round 6 (own probing of the blocking entry points): Trigger, send_or_wait, callbacks ------------------------------------------
 M("C07.wait_zero_timeout_reports_flushed", ["C07"], "batcher/src/sync.rs",
   "            if timeout == Duration::ZERO {\n                return false;", "            if timeout == Duration::ZERO {\n                return true;", "C07.R4:Trigger")
